@@ -525,3 +525,186 @@ func (w *World) normCtorKey(k string) string {
 	}
 	return k
 }
+
+// Struct values.
+//
+// structFieldValue: the one value field `path` of the struct VALUE sv holds — through by-value
+// parameters (bound to one argument), whole-struct loads of local variables, copies, and
+// struct results of module helpers all of whose non-zero returns agree — or nil. A zero-valued
+// alternative (the `return T{}, false, err` of a helper) is ignored: the answer reads "that
+// value, or the zero value".
+func (w *World) structFieldValue(sv ssa.Value, path []string, depth int) ssa.Value {
+	if depth > 8 || len(path) == 0 || sv == nil {
+		return nil
+	}
+	st := w.ss()
+	if st.sfvBusy == nil {
+		st.sfvBusy = map[ssa.Value]bool{}
+	}
+	if st.sfvBusy[sv] {
+		return nil
+	}
+	st.sfvBusy[sv] = true
+	defer delete(st.sfvBusy, sv)
+	switch x := sv.(type) {
+	case *ssa.Parameter:
+		a, ok := argOfParam(x)
+		if !ok {
+			return nil
+		}
+		return w.structFieldValue(a, path, depth+1)
+	case *ssa.FreeVar:
+		if b := w.binding(x); b != nil {
+			return w.structFieldValue(b, path, depth+1)
+		}
+		return nil
+	case *ssa.Phi:
+		var one ssa.Value
+		for _, e := range x.Edges {
+			r := w.structFieldValue(e, path, depth+1)
+			if r == nil {
+				return nil
+			}
+			if one != nil && !(one == r || w.sameKey(one, r)) {
+				return nil
+			}
+			one = r
+		}
+		return one
+	case *ssa.UnOp:
+		if x.Op != token.MUL {
+			return nil
+		}
+		al, isAl := x.X.(*ssa.Alloc)
+		if !isAl || w.escapesToWriters(al) {
+			return nil
+		}
+		return w.localStructField(al, path, x, depth)
+	case *ssa.Call, *ssa.Extract:
+		call, idx := callOf(sv)
+		if call == nil || call.Call.IsInvoke() {
+			return nil
+		}
+		if _, isP := sv.(*ssa.Parameter); isP {
+			return nil
+		}
+		h := call.Call.StaticCallee()
+		if h == nil || !w.IsMod[h] || len(h.Blocks) == 0 {
+			return nil
+		}
+		if idx < 0 {
+			idx = 0
+		}
+		var one ssa.Value
+		for _, r := range returnsOf(h) {
+			if idx >= len(r.Results) {
+				return nil
+			}
+			rv := r.Results[idx]
+			if c, isC := rv.(*ssa.Const); isC && c.Value == nil {
+				continue // the zero struct of an error / not-found return
+			}
+			inner := w.structFieldValue(rv, path, depth+1)
+			if inner == nil {
+				// a literal none of whose stores touches the field: zero there too
+				if u, isU := rv.(*ssa.UnOp); isU && u.Op == token.MUL {
+					if al, isAl := u.X.(*ssa.Alloc); isAl && !w.escapesToWriters(al) && w.noStoreAt(al, path) {
+						continue
+					}
+				}
+				return nil
+			}
+			tv := w.translate(inner, h, call)
+			if one != nil && !(one == tv || w.sameKey(one, tv)) {
+				return nil
+			}
+			one = tv
+		}
+		return one
+	}
+	return nil
+}
+
+// localStructField: the value of field path of local struct variable al as read at `at`.
+func (w *World) localStructField(al *ssa.Alloc, path []string, at ssa.Instruction, depth int) ssa.Value {
+	loc := w.locKey(al)
+	full := loc + "." + strings.Join(path, ".")
+	if ss := w.stores[full]; len(ss) == 1 && len(w.storesUnder(full)) == 0 {
+		// no whole-struct store may overwrite it afterwards
+		for n := len(path) - 1; n >= 0; n-- {
+			p := loc
+			if n > 0 {
+				p += "." + strings.Join(path[:n], ".")
+			}
+			if len(w.stores[p]) > 0 {
+				return nil
+			}
+		}
+		if ss[0].Parent() == at.Parent() && !instrDominates(ss[0], at) {
+			return nil
+		}
+		return ss[0].Val
+	} else if len(ss) > 1 {
+		return nil
+	}
+	// a whole-struct store covering the field (a copy of another struct value)
+	for n := len(path) - 1; n >= 0; n-- {
+		p := loc
+		if n > 0 {
+			p += "." + strings.Join(path[:n], ".")
+		}
+		ss := w.stores[p]
+		if len(ss) == 0 {
+			continue
+		}
+		if len(ss) != 1 || len(w.storesUnder(p)) != 0 {
+			return nil
+		}
+		if ss[0].Parent() == at.Parent() && !instrDominates(ss[0], at) {
+			return nil
+		}
+		return w.structFieldValue(ss[0].Val, path[n:], depth+1)
+	}
+	return nil
+}
+
+// noStoreAt: nothing is ever stored at (or above, or below) field path of local al.
+func (w *World) noStoreAt(al *ssa.Alloc, path []string) bool {
+	loc := w.locKey(al)
+	full := loc + "." + strings.Join(path, ".")
+	if len(w.stores[full]) > 0 || len(w.storesUnder(full)) > 0 || len(w.stores[loc]) > 0 {
+		return false
+	}
+	for n := 1; n < len(path); n++ {
+		if len(w.stores[loc+"."+strings.Join(path[:n], ".")]) > 0 {
+			return false
+		}
+	}
+	return true
+}
+
+// escapesToWriters: the address of local al (or of one of its fields) is handed to something
+// that may write through it: anything but field addressing, loads, stores to it, and calls of
+// module methods with a VALUE receiver (which get a copy).
+func (w *World) escapesToWriters(al *ssa.Alloc) bool {
+	var visit func(v ssa.Value) bool
+	visit = func(v ssa.Value) bool {
+		for _, r := range *v.Referrers() {
+			switch x := r.(type) {
+			case *ssa.FieldAddr:
+				if visit(x) {
+					return true
+				}
+			case *ssa.UnOp, *ssa.DebugRef:
+			case *ssa.Store:
+				if x.Addr != v {
+					return true
+				}
+			default:
+				return true
+			}
+		}
+		return false
+	}
+	return visit(al)
+}
